@@ -19,6 +19,7 @@ def P(base, off):
 class BufEvaluator(Evaluator):
     def __init__(self, mod):
         Evaluator.__init__(self, mod, unsigned_types=())
+        self.gbytes = {}        # fresh variable -> (constant string global, offset) it was loaded from
         self.stores = []        # (inst, ok, description)
         self.fieldwrites = []   # (inst, field, ok, description)
         self.nfresh = 0
@@ -28,6 +29,52 @@ class BufEvaluator(Evaluator):
         w = int(ty[1:]) if ty.startswith('i') and ty[1:].isdigit() else 64
         path.ranges[v] = (-(1 << (w - 1)), (1 << w) - 1) if w < 64 else (-(1 << 63), (1 << 63) - 1)
         return Aff({v: 1})
+    def const_byte(self, base, off):
+        """the byte at a constant offset of a constant string global, or None"""
+        if not base.startswith('g:') or not off.is_const():
+            return None
+        g = self.mod.globals.get(base[2:])
+        if not g or not g.get('const') or g.get('init', {}).get('k') != 'str':
+            return None
+        v = g['init']['v']
+        return ord(v[off.k]) if 0 <= off.k < len(v) else None
+    def note_zero(self, path, off, val):
+        """remember the store (offset, value) - whether the text ends up NUL-terminated is decided at the exit, under the final constraints"""
+        path.mem['bufstores'] = path.mem.get('bufstores', ()) + ((off, val),)
+    def value_is_zero(self, path, val):
+        if not isinstance(val, Aff):
+            return False
+        lo, hi = path.interval(val)
+        if lo == hi == 0:
+            return True
+        if len(val.c) == 1 and val.k == 0:
+            (v, c), = val.c.items()
+            if c == 1 and v in self.gbytes:
+                base, off = self.gbytes[v]
+                l2, h2 = path.interval(off)
+                if l2 == h2:
+                    return self.const_byte(base, Aff({}, l2)) == 0
+        return False
+    def terminated(self, path):
+        """at an exit: is there a 0 at the entry cursor position or in the last byte, not overwritten afterwards?"""
+        ln = path.mem[BUFS + '.len']
+        for place in (Aff({'pos': 1}), ln - Aff({}, 1)):
+            for off, val in reversed(path.mem.get('bufstores', ())):
+                if off == 'block-end':
+                    if place is not None and (place - (ln - Aff({}, 1))).is_const() and (place - (ln - Aff({}, 1))).k == 0:
+                        if val is True:
+                            return True
+                        break
+                    continue
+                d = off - place
+                lo, hi = path.interval(d)
+                if lo == hi == 0:
+                    if self.value_is_zero(path, val):
+                        return True
+                    break          # the last store to that place is not a 0
+                if lo <= 0 <= hi:
+                    break          # may or may not be that place: undecided, do not claim
+        return False
     def _check(self, path, inst, a, unsigned=None):
         return          # wrap-around of intermediate values is not this engine's business; offsets are checked at the stores
     def _val(self, regs, ref):
@@ -91,7 +138,14 @@ class BufEvaluator(Evaluator):
                 return True
             if isinstance(a, tuple) and a[0] == 'ptr':
                 cell = ('cell', a[1], a[2].key())
-                if a[1].startswith('alloca:') and cell in path.mem:
+                cb = self.const_byte(a[1], a[2]) if i.ty == 'i8' else None
+                if cb is not None:
+                    regs[i.id] = Aff({}, cb)
+                elif i.ty == 'i8' and a[1].startswith('g:') and self.mod.globals.get(a[1][2:], {}).get('init', {}).get('k') == 'str':
+                    fv = self.fresh_var(path, i.ty)          # a byte of a constant string at an offset the path may pin down later
+                    self.gbytes[list(fv.c)[0]] = (a[1], a[2])
+                    regs[i.id] = fv
+                elif a[1].startswith('alloca:') and cell in path.mem:
                     regs[i.id] = path.mem[cell]
                 elif i.ty.endswith('*'):
                     regs[i.id] = P('unknown:%s' % i.id, 0)
@@ -123,6 +177,7 @@ class BufEvaluator(Evaluator):
                     _, hi = path.interval(a[2] - ln)
                     ok = lo >= 0 and hi <= -1
                     self.stores.append((i, ok, 'offset %s: >= %d, offset - len <= %d' % (a[2], lo, hi)))
+                    self.note_zero(path, a[2], v)
                 elif a[1].startswith('alloca:'):
                     path.mem[('cell', a[1], a[2].key())] = v
                 elif a[1] in ('desc', 'null') or a[1].startswith(('g:', 'unknown:')):
@@ -162,6 +217,18 @@ class BufEvaluator(Evaluator):
                     nlo, _ = path.interval(n)
                     ok = lo >= 0 and hi <= 0 and nlo >= 0
                     self.stores.append((i, ok, 'block write at offset %s of %s bytes' % (a[2], n)))
+                    src = self._val(regs, i.ops[1]) if callee.startswith(('llvm.memcpy', 'llvm.memmove')) else None
+                    endd = a[2] + n - ln          # 0 iff the block ends exactly at the end of the buffer
+                    if path.interval(endd) == (0, 0) and path.interval(n)[0] >= 1:
+                        val = None
+                        if callee.startswith('llvm.memset'):
+                            val = self._val(regs, i.ops[1])
+                        elif isinstance(src, tuple) and src[0] == 'ptr':
+                            cb = self.const_byte(src[1], src[2] + n - Aff({}, 1))
+                            val = Aff({}, cb) if cb is not None else None
+                        path.mem['bufstores'] = path.mem.get('bufstores', ()) + (('block-end', bool(isinstance(val, Aff) and val.is_const() and val.k == 0)),)
+                    elif not (path.interval(endd)[1] < 0):
+                        path.mem['bufstores'] = path.mem.get('bufstores', ()) + (('block-end', False),)
                     return True
                 if isinstance(a, tuple) and a[0] == 'ptr' and a[1].startswith('alloca:'):
                     return True
@@ -179,7 +246,7 @@ class BufEvaluator(Evaluator):
             return False
         return False
 
-def analyse_writer(mod, fn):
+def analyse_writer(mod, fn, fixed=None):
     """Evaluate fn (which takes the descriptor as a pointer argument) on every path from the invariant 0 <= pos <= len.
     Returns (stores, fieldwrites, exits) or None when the function cannot be evaluated to the end."""
     ev = BufEvaluator(mod)
@@ -194,6 +261,8 @@ def analyse_writer(mod, fn):
             args.append(P('desc', 0)); ndesc += 1
         elif a['ty'].endswith('*'):
             args.append(P('arg:' + a['id'], 0))
+        elif a['ty'].startswith('i') and fixed and a['id'] in fixed:
+            args.append(Aff({}, fixed[a['id']]))
         elif a['ty'].startswith('i'):
             w = int(a['ty'][1:])
             v = 'arg_' + a['id']
@@ -214,4 +283,12 @@ def analyse_writer(mod, fn):
         ok = isinstance(ps, Aff) and isinstance(ln, Aff) and p2.interval(ps)[0] >= 0 and p2.interval(ps - ln)[1] <= 0 and ln == Aff({'len': 1}) \
             and p2.mem[BUFS + '.start'] == P('buf', 0)
         exits.append(ok)
-    return ('ok', ev.stores, ev.fieldwrites, exits)
+    # is the text NUL-terminated inside the buffer at each exit?  (paths with an empty buffer, or entered with the overflow flag already set -
+    # terminated by the call that set it - have nothing to show)
+    term = []
+    for p2, rv in out:
+        if p2.interval(Aff({'len': 1}))[1] <= 0 or p2.interval(Aff({'ovf': 1}))[0] >= 1:
+            term.append(None)
+        else:
+            term.append(ev.terminated(p2))
+    return ('ok', ev.stores, ev.fieldwrites, exits, term)
